@@ -14,6 +14,8 @@ class Result:
         self.disagree = collections.defaultdict(list)    # gid -> [payload]
         self.early = collections.defaultdict(list)
         self.static = {}                                 # gid -> payload
+        self.caps = {}
+        self.capsok = {}
         self.conflicts = {}                              # gid -> {n, rr, states}
         self.design_errors = []                          # TLC errors of the spec-only model (spec bug or oracle bug)
         self.verdicts = {}                               # (gid, bytes tuple, ws, nl) -> payload
@@ -43,7 +45,7 @@ def run(entries, workname, design_L=None, design_ws=(), product_depth=8, do_prod
     if do_product and live:
         for ci, part in enumerate(pipeline.chunks(live, tlc_procs)):
             env, _ = pipeline.tlc_inputs(part, work, 'prod%d' % ci, with_traces=False)
-            cfg = pipeline.write_cfg(work, 'prod%d' % ci, 'Spec', ['Reported', 'EarlyReported', 'StaticReported', 'ConflictsReported'],
+            cfg = pipeline.write_cfg(work, 'prod%d' % ci, 'Spec', ['Reported', 'EarlyReported', 'StaticReported', 'ConflictsReported', 'CapsReported'],
                                      {'DEPTH': product_depth, 'FUEL': 60}, view='vw')
             tasks.append(('product', part, (lambda env=env, cfg=cfg, ci=ci: vlib.run_tlc('ProductTable', cfg, env, '%s_prod%d' % (workname, ci), workers=tlc_workers, timeout=timeout))))
     # ---- design (A): spec alone on its own table against the derivation oracles
@@ -79,6 +81,10 @@ def run(entries, workname, design_L=None, design_ws=(), product_depth=8, do_prod
                 res.static[d['g']] = d
             for d in r.lines.get('CONFLICTS', []):
                 res.conflicts[d['g']] = d
+            for d in r.lines.get('CAPS', []):
+                res.caps[d['g']] = d
+            for d in r.lines.get('CAPSOK', []):
+                res.capsok[d['g']] = d
             if r.exit != 0 or r.errors:
                 raise Infra('ProductTable run failed: %s\n%s' % (r.errors[:3], r.out[-2000:]))
         else:
